@@ -177,7 +177,10 @@ impl<'a> Evaluator<'a> {
                                 }
                             }
                             if flags.contains(ExpressionFactorFlags::NEG) {
-                                number = -number;
+                                number = number.checked_neg().ok_or_else(|| EvaluationError {
+                                    span: expr.span,
+                                    message: "negation overflows the 64-bit value range".into(),
+                                })?;
                             }
                             Ok(Some(number.into()))
                         }
